@@ -104,7 +104,8 @@ func (im *crashImager) judge(dir, point string, id uint64, pre crashPre, desc st
 	if r.term < pre.term || (r.term == pre.term && pre.voted != 0 && r.votedFor != pre.voted) {
 		fail("term-vote-regressed", fmt.Sprintf("had (%d,%d), restarted with (%d,%d)", pre.term, pre.voted, r.term, r.votedFor))
 	}
-	if !(r.log.PrevIndex() <= r.snaps.index && r.snaps.index <= r.lastLogIndex && r.lastLogIndex == maxU(r.log.LastIndex(), r.snaps.index)) {
+	// the next entry the node accepts is lastLogIndex+1: the log must be positioned exactly there
+	if !(r.log.PrevIndex() <= r.snaps.index && r.snaps.index <= r.lastLogIndex && r.lastLogIndex == r.log.LastIndex()) {
 		fail("log-not-contiguous-with-snapshot", fmt.Sprintf("prev %d snapshot %d lastLogIndex %d log.last %d", r.log.PrevIndex(), r.snaps.index, r.lastLogIndex, r.log.LastIndex()))
 	}
 	for i, t := range pre.terms {
@@ -132,6 +133,11 @@ func (im *crashImager) judge(dir, point string, id uint64, pre crashPre, desc st
 	}
 	if res.resp == nil || res.resp.getResult() != success {
 		fail("cannot-rejoin", fmt.Sprintf("append continuing its own log refused: %v", res.resp))
+	} else {
+		got := &entry{}
+		if err := r.storage.getEntry(ne.index, got); err != nil || got.term != term || got.index != ne.index {
+			fail("cannot-rejoin", fmt.Sprintf("entry %d accepted after restart cannot be read back (err %v, got index %d term %d)", ne.index, err, got.index, got.term))
+		}
 	}
 	v := n2.deliverRPC(wireReq(&voteReq{req: req{term + 1, 98}, lastLogIndex: r.lastLogIndex, lastLogTerm: r.lastLogTerm, transfer: true}, nil))
 	if v.panicv != nil {
